@@ -1,20 +1,29 @@
 from checks.generic import standard
+from checks.loopbody import one_pass
 
 def run(ctx):
-    return standard(ctx,
+    # one pass of the periodic cleanup (an endless loop with a sleep in the tree) as a callable unit
+    overlay, hookfiles, ok, detail = one_pass(ctx, "cmd/keymasterd/app.go", "performStateCleanup", "verifCleanupOnce", "c14CleanupOnce")
+    ctx.obligations.append(("instrumentation: one pass of performStateCleanup callable (%s)" % detail, ok, detail))
+    if not ok:
+        ctx.broken.append(("correspondence", "instrumentation", "no loop body found in performStateCleanup (app.go): " + detail))
+    return standard(ctx, extra_overlay=overlay,
         props=[("Props.C14", ["c14_bucket", "c14_bucket_limiter", "c14_bucket_plus1", "c14_bucket_any_state",
-                              "c14_excess_429", "c14_entry_points", "c14_config", "c14_old_clamp_refuted",
+                              "c14_excess_429", "c14_limiter_first", "c14_entry_points", "c14_config", "c14_old_clamp_refuted",
                               "c14_totp_spacing", "c14_lockout", "c14_lockout_escalates", "c14_fail_count",
-                              "c14_totp_per_user", "c14_old_lockout_refuted"])],
-        harness=("TestVerif_C14", ["kmd/common.go", "kmd/creds.go", "kmd/consts.go", "kmd/c14.go"]),
-        obl=("Obl_C14.v", ["c14_totp_consts", "c14_two_seconds"]),
+                              "c14_totp_per_user", "c14_old_lockout_refuted",
+                              "c14_cleanup_invisible", "c14_streak", "c14_lockout_history", "c14_cleanup_per_user",
+                              "c14_purging_cleanup_refuted", "c14_count_bounded", "c14_uint32_exact"])],
+        harness=("TestVerif_C14", ["kmd/common.go", "kmd/creds.go", "kmd/consts.go", "kmd/c14.go"] + hookfiles),
+        obl=("Obl_C14.v", ["c14_totp_consts", "c14_two_seconds", "c14_uint32_consts"]),
         cases=("CasesC14.v", [("c14_cfg_mismatches", "loadVerifyConfigFile's clamps = model clamp_burst/clamp_rate"),
                               ("c14_lim_mismatches", "rate.Limiter.AllowN on explicit time stamps = exact token bucket model (knife edges of half a nanosecond of refill tolerated)"),
+                              ("c14_order_mismatches", "ordering probe: what a backend that reads the limiter during its lookup sees, for every entry point = limiter state after Allow() of the model's login_step"),
                               ("c14_handler_mismatches", "measured handler sequence: every window obeys the theorem's inequality; fresh burst and refill after a pause are let through"),
-                              ("c14_totp_mismatches", "validateUserTOTP verdict and rate-limit entry after every attempt = model (simulated time)")], "CasesC14.idx"),
+                              ("c14_totp_mismatches", "validateUserTOTP verdict and rate-limit entry after every attempt, and every entry after every pass of the periodic cleanup, = model with the uint32 counter (simulated time)")], "CasesC14.idx"),
         trusted=["golang.org/x/time/rate computes in float64; the model is exact and tolerates either verdict within half a nanosecond of refill around the threshold",
                  "time is simulated for validateUserTOTP by shifting the time fields of state.totpLocalRateLimit (the code reads time.Now() itself); comparisons are kept 120 ms off their boundaries",
                  "recording PasswordAuthenticator installed in RuntimeState.passwordChecker stands for the password backend"],
         assumptions=["arrival times at the limiter are non-decreasing (time.Now() is read just before the limiter's lock is taken; reordering of concurrent requests by microseconds is not modelled)",
-                     "failCount is a uint32 in the code and unbounded in the model (2^32 evaluated failures need 272 years)"],
+                     ],
         timeout=1500)
